@@ -12,9 +12,85 @@ VERIF = os.path.dirname(os.path.dirname(os.path.abspath(__file__)))
 
 CHECKS = {
     'C01': dict(level='exploration', ref='4/C01',
-                technique='differential oracle (hashlib/hmac/pbkdf2, GF(2) polynomial division) over sanitizer-instrumented executions',
-                text='Real alg/*.c objects run under ASan+UBSan on every length 0..600 x 3 update partitions, every HMAC key length 0..200, every PBKDF2 dkLen 1..200, every CRC32C (length 0..80, alignment 0..15), random cases and one >2^32-bit stream per hash; each result is compared with an independent implementation. Sampling, not proof: lengths beyond 64 KiB are covered by one stream per algorithm.',
+                technique='runtime monitoring: differential oracle (hashlib/hmac/pbkdf2, GF(2) polynomial division) over ASan+UBSan-instrumented executions of the real alg/*.c',
+                text='Real alg/*.c objects run under ASan+UBSan on every length 0..600 x 3 update partitions, every HMAC key length 0..200, every PBKDF2 dkLen 1..200, every CRC32C (length 0..80, alignment 0..15), random cases and two >2^32-bit streams per hash (chunked and one single update >= 2^29 bytes); each result is compared with an independent implementation. Sampling, not proof: lengths beyond 64 KiB are covered by the long streams only.',
                 note='Trusts Python hashlib/hmac (OpenSSL) as the specification; gcc 12 ASan/UBSan.'),
+    'C02': dict(level='exploration', ref='4/C02',
+                technique='runtime monitoring: differential against an independent byte-oriented FIPS-197 / SP 800-38A reference (harness/common/refaes.c, self-checked on the FIPS vectors, spot-checked with openssl enc) under ASan+UBSan, AES-NI build and OpenSSL-software build',
+                text='Seeded random and planned workload: key/block pairs, CTR streams under 3 partitions each (0-length, sub-block and multi-block calls), crypto_aesctr_buf, in-place, encrypt-twice, init2 re-use with and without a new key, streams of >300 and >70,000 blocks (2^24 in thorough) cut around blocks 255/256/65535/65536 on both the incremental and the bulk path.',
+                note='Keys, nonces and partitions are sampled; counter carries above 2^16 blocks run in the thorough tier only; inconclusive if the AES-NI build does not select AES-NI.'),
+    'C03': dict(level='exploration', ref='4/C03',
+                technique='runtime monitoring of build variants: the alg/crypto objects compiled in every subset of {SHANI+SSSE3, SSE2, SSE42 32/64, AESNI} and with run-time detectors substituted to answer "absent" (39 configurations), one seeded workload, N-way comparison plus references; --wrap call counters prove which implementation ran',
+                text='All 39 configurations executable on this host are enumerated; inputs (alignments 0..15, lengths and partitions around the 8/16/64-byte thresholds) are sampled. Every answer is compared with hashlib/hmac, the CRC algebra and the AES reference and with every other variant; a self-test "Disabling ..." warning counts as a violation.',
+                note='ARM paths cannot run on this host. A variant whose intended path never ran (or whose forbidden path ran) makes the result inconclusive, never a pass.'),
+    'C04': dict(level='exploration', ref='4/C04',
+                technique='runtime monitoring: trace checker (vlib/evtrace.py rule set C04) over the API-boundary event log of random register/cancel/reset programs run by the real event loop on a simulated kernel (interposed poll/clock_gettime), invariant hook of events_network.c at every callback and poll entry, ASan+UBSan with real and pass-through pool',
+                text='20,000 (quick) / 600,000 (thorough) random programs, each ending in a drain where every surviving registration must fire exactly once; rules: callback only while registered and at most once, socket callback only after a poll reported the direction ready since registration (or the latest poll reported ERR/HUP), timer never early, EEXIST/ENOENT, the six structural invariants.',
+                note='Kernel and clock are simulated (harness/common/simk.c); programs are random, descriptors <= 12; allocation failure is C14.'),
+    'C05': dict(level='exploration', ref='4/C05',
+                technique='runtime monitoring: trace checker (vlib/evtrace.py rule set C05) over the same executions as C04, judged against a model of {pending immediates, world-ready sockets, expired timers} in virtual time',
+                text='Order (immediate < ready socket < expired timer, priority then FIFO, deadline order), bounded progress per events_run (runs something if runnable without sleeping first; sleeps no longer than the earliest deadline rounded up to 1 ms; a wake-up is followed by a callback), status propagation (first non-zero return / interrupt stops dispatch and is returned; events_spin), nothing lost in the final drain.',
+                note='Unbounded liveness is not decidable by finite runs and is not claimed; progress clauses are bounded by one events_run call. EINTR is injected only into polls that would block.'),
+    'C06': dict(level='exploration', ref='4/C06',
+                technique='runtime monitoring: byte-exact stream oracle at the syscall boundary (interposed recv/send/connect/getsockopt/accept/socket/close/poll/clock) with exactly-once counters, ASan+UBSan, real and pass-through pool',
+                text='24,000 (quick) / 1.2M (thorough) scenarios: back-to-back read or write requests on one descriptor with scripted kernel answers (partial lengths, EAGAIN, EINTR, spurious readiness, EOF/errors at random offsets, stalls, cancellation at random steps), simultaneous read+write, connects over lists of 0..5 addresses from 7 behaviours with/without per-address timeout (timing checked in virtual time), accepts with scripted soft/hard errors.',
+                note='Kernel simulated; EAGAIN == EWOULDBLOCK on Linux; connect completions are generated >= 3 ms away from the timeout (ties not generated).'),
+    'C07': dict(level='exploration', ref='4/C07',
+                technique='runtime monitoring: every byte visible through netbuf_read_peek compared with the peer\'s keyed stream, every byte accepted by the interposed send compared with the concatenation of the writes; exactly-once callbacks; ASan+UBSan',
+                text='16,000 (quick) / 1M (thorough) histories of wait(k)/peek/consume(j)/cancel with k from 1 to 20000 (growth and compaction of the 4096-byte buffer) and of reserve/consume/write with sizes 0..50000, crossed with segmentations, EAGAIN/EINTR patterns, EOF and failure offsets (incl. early ones that hit small uncoalesced buffers).',
+                note='Kernel simulated. After EOF/error is reported the reader is not used further.'),
+    'C08': dict(level='exploration', ref='4/C08',
+                technique='runtime monitoring: ASan/UBSan + abort/assert/signal detection + callback counter + range checks on struct http_response made while reading every header string and body byte + live-block count of a tracking allocator + pending-after-close detector, over structured mutations of generated responses on the simulated kernel',
+                text='28,000 (quick) / 1.5M (thorough) (byte string, segmentation, limit, request, cancel step, transport mode) cases: 15 structured mutation families (incl. whitespace after an empty chunk-size line up to the end of the reader\'s buffer, bodies at limit-2..limit+2 in all framings, 64 KiB header blocks, 1xx floods), EOF at every offset of short responses, limits 0/1/2/around the body/large.',
+                note='Kernel simulated; byte strings are sampled from the mutation families, not all byte strings. Leak check = live-block count returns to its pre-request value (pass-through pool build).'),
+    'C09': dict(level='exploration', ref='4/C09',
+                technique='runtime monitoring: generator-known (status, headers, body) and request bytes compared with the callback arguments and the bytes captured by the interposed send, ASan+UBSan, leak count',
+                text='12,000 (quick) / 500,000 (thorough) generated well-formed responses: Content-Length / chunked (1..50 chunks, extensions, hex case, leading zeros, trailers, chunks above 1 MiB in thorough) / read-to-EOF, 0..3 interim 1xx responses shorter and longer than the final header block, HEAD/204/304, OWS and colons in values, limits equal to and above the body, four segmentation modes, async connects, tiny send windows.',
+                note='Header blocks stay below the client\'s 64 KiB limit and chunk-size lines below its 256-byte limit (implementation limits, not part of the claim).'),
+    'C10': dict(level='exploration', ref='4/C10',
+                technique='runtime monitoring under ASan+UBSan of the real crypto_dh.c with crypto_entropy_read substituted at link time (blinding chosen by the case); Python big-integer oracle pow(., 2^258+x, p) with p typed in from RFC 3526 and cross-checked against the RFC\'s pi formula',
+                text='Boundary sets for x, y and blinding; constructed peers giving every leading-zero count 1..256; sanity-check neighbours of p at every byte; two-party agreement; entropy failure at every position; plus seeded random (14k operations quick, 340k thorough).',
+                note='256-bit and 2048-bit values are sampled. For y >= p the documented interface has no precondition; the model is pow(y, e, p).'),
+    'C11': dict(level='fault_enumeration', ref='4/C11',
+                technique='runtime monitoring: byte-for-byte comparison with an SP 800-90A 10.1.2 HMAC_DRBG model (validated on a CAVP vector) fed with the bytes the substituted OS entropy source handed out; one forked child per history; every entropy call failed in turn',
+                text='For each generated history every entropy call (instantiation and each reseed) is failed in turn (1-3 consecutive failures); in the build with the real util/entropy.c every entropy_read gets open failure, EOF, EIO, EINTR, short reads and close errors through interposed open/read/close. Fault-free exploration covers random and reseed-boundary histories with requests of 0..200000 bytes.',
+                note='Histories and entropy contents are sampled. After a failed call any state the call passed through is accepted (the statement does not say which). The RDRAND build is informative only.'),
+    'C12': dict(level='exploration', ref='4/C12',
+                technique='runtime monitoring: reference models (byte vector with unknown-mask, FIFO, number table, live set) compared after every operation through the public calls; tracking allocator (--wrap malloc family) supplies capacities, exported block sizes, real allocations behind pool calls and the blocks alive after all atexit handlers; ASan+UBSan',
+                text='4,900 (quick) / 194,000 (thorough) histories of 200-6000 operations sized to cross grow/keep/shrink, move-to-front and cache-doubling boundaries; capacity oracle size <= cap <= 4*size+3 (integer form of the code\'s own test), cap == size after truncate; overflow arguments; typed ELASTICARRAY_DECL layer; pool exit check in a separate process per history.',
+                note='Random sampling. Allocation refusals are C14. The +3 in the capacity bound is integer rounding (a 7-byte buffer may hold 1 byte).'),
+    'C13': dict(level='exploration', ref='4/C13',
+                technique='runtime monitoring: live-element model; positions recorded only by the record-cookie callback; after every operation the peek hook walks the heap (membership, handle == position, parent <= child, getmin == model minimum); final drain sorted and equal to the model; timer queue judged through its public interface with old cookies; ASan+UBSan',
+                text='3,000 (quick) / 243,000 (thorough) histories; heaps of 0..3400 elements, create from 0..3000, four key ranges incl. many duplicates; five time modes with equal and distinct times.',
+                note='Random sampling. Heap-internal checks rely on the LIBCPERCIVA_VERIF peek hook.'),
+    'C14': dict(level='fault_enumeration', ref='4/C14',
+                technique='runtime fault injection with monitors: tracking allocator with failpoints under the library (--wrap), one forked child per allocation attempt k (fails once / fails from k on), model-equality and registration monitors, refuse-everything during cannot-fail operations, empty-live-set check after all atexit handlers, ASan+UBSan, simulated kernel for the I/O scenarios',
+                text='12 scenarios (array, queue, map, heap, timer queue, event registrations, network read/write, connect/accept, netbuf reader/writer, a complete HTTP request, helpers + AWS signing, object pool); EVERY allocation attempt of each executed scenario is failed in both modes (about 3,400 children quick, 50,000 thorough).',
+                note='Exhaustive over the fault points of the executed scenarios, not over all scenarios. libc-internal allocations are not injectable. A request that never calls back after an event-loop error is taken to have been torn down by the library; the exit-time live-set check verifies it.'),
+    'C15': dict(level='exploration', ref='4/C15',
+                technique='runtime monitoring under ASan+UBSan (-O1 and -O0 builds) with every input in a heap block of exactly its size and every output in a block of exactly the contract\'s size; range checks on results; per-input CPU-time watchdog; getaddrinfo interposed; thorough adds libFuzzer (clang) and valgrind memcheck',
+                text='Every prefix of generated valid JSON objects and of ~110 broken documents; every position x {=, NUL, 0x80, 0xff, -, space} for the decoders; every length 0..40 and every truncation of serialised addresses; lines around the 1024/2048-byte file buffers; hostile argv; 350k inputs quick, 4.7M + 40M fuzz executions thorough.',
+                note='A generated sample of byte strings plus exhaustive truncation/position enumeration of that sample. libc internals are trusted. Host-name forms of sock_resolve are excluded.'),
+    'C16': dict(level='exploration', ref='4/C16',
+                technique='runtime monitoring under ASan+UBSan: the real PARSENUM/PARSENUM_EX instantiations for 15 target types and humansize/humansize_parse compared (return code, errno, stored value) with an exact-arithmetic Python model of the documented language; humansize output compared with a brute-force table of every representable string',
+                text='Every integer type x base 0 and 2..36 x values at the type limits and +-2^64 images, every humansize output value +-1, plus random numerals near bounds, 14 kinds of malformation, decimal/hex/inf/nan floats: 0.9M cases quick, 16M thorough.',
+                note='Assumes LP64. Strings whose reading the documentation leaves open (0b prefixes, nan(, subnormal/overflowing floats, roundings straddling a bound) are dropped and counted; a string both malformed and out of range may fail with either errno.'),
+    'C17': dict(level='exploration', ref='4/C17',
+                technique='runtime monitoring with differential oracles under ASan+UBSan in exact-size buffers: Python base64/binascii, arithmetic byte order, address bytes known by construction (cross-checked with ipaddress), known value offsets of generated JSON documents',
+                text='Every length 0..120, every byte value, every offset 0..15, every Unix path length 1..107, plus seeded random cases: 0.5M evaluations quick, 9M thorough.',
+                note='Only numeric address strings are resolved. Non-canonical base-64 pad bits and trailing characters beyond 2*len hex digits may go either way.'),
+    'C18': dict(level='exploration', ref='4/C18',
+                technique='runtime monitoring under ASan+UBSan: six option tables compiled through the real GETOPT_* macros; the sequence of (label, optarg) and the final optind compared with a Python model written from the getopt.h comment; every parse follows optreset after another, possibly abandoned, parse; a sample repeated in fresh processes',
+                text='Exhaustive over per-table alphabets of 13-49 tokens for length <= 3 (full) and 4 (reduced) in quick, <= 4 (full) and 5 (reduced) in thorough; random vectors to length 8: 0.9M parses quick, 10.8M thorough.',
+                note='optarg compared only at GETOPT_OPTARG labels; stderr warnings not compared; where the header is silent the model follows standard getopt.'),
+    'C19': dict(level='exploration', ref='4/C19',
+                technique='runtime monitoring under ASan+UBSan with time() interposed: all four aws_sign_* functions; signature, credential scope, content hash and query string re-derived from the returned timestamp by an independent Python SigV4 that reproduces the published AWS worked examples',
+                text='48k signatures quick, 1.9M thorough over ids/regions/buckets/services/ops/paths of 0..200 unreserved characters, printable-ASCII secrets, bodies absent/empty/1 B..100 KiB, the int expiry range, clock instants 1970..2100; over half the cases use a clock that ticks on every call at a day, leap-day or year boundary.',
+                note='Paths are absolute. The timestamp must be an instant the interposed clock returned, in UTC. Acceptance by the live AWS service is out of scope.'),
+    'C20': dict(level='exploration', ref='4/C20',
+                technique='runtime monitoring of the real objects in -O2, -O1+ASan/UBSan and (thorough) -O2 -flto builds, with and without AES-NI: context bytes read back after every *_Final; a free-time hook (under malloc/free via --wrap and under OpenSSL via CRYPTO_set_mem_functions) searches every released block for independently derived secret images',
+                text='Every message length 0..300 (thorough 0..600) for 3 hashes and 3 HMACs on heap and stack; random AES keys with expand/encrypt/free; random AES-CTR scripts incl. init2 re-use; DH with random and extreme x and blinding and entropy failures; eleven failing key-file shapes. Each case carries a positive control (an unwiped block must be reported), else inconclusive.',
+                note='Speaks only for the gcc builds that ran; quick omits -flto. Not observable and not claimed: contexts inside *_Buf helpers and PBKDF2, stack buffers, libc\'s stdio buffer.'),
 }
 
 NOT_BUILT_REASON = 'check not built yet in this revision of /verif (planned, see DESIGN.md section 4)'
